@@ -2,6 +2,7 @@
 # All rights reserved.
 # This software is licensed under the BSD 3-Clause License.
 """Implement the SyncedCollection class."""
+import sys
 from abc import abstractmethod
 from collections import defaultdict
 from collections.abc import Collection
@@ -41,7 +42,13 @@ class _LoadAndSave:
 
     def __enter__(self):
         self._collection._thread_lock.__enter__()
-        self._collection._load()
+        try:
+            self._collection._load()
+        except BaseException:
+            # __exit__ is not called if __enter__ raises, so the lock must be
+            # released here or it would stay held by this thread forever.
+            self._collection._thread_lock.__exit__(*sys.exc_info())
+            raise
 
     def __exit__(self, exc_type, exc_val, exc_tb):
         try:
